@@ -145,7 +145,7 @@ func (h *headServer) ServeHTTP(w http.ResponseWriter, r *http.Request) {
 
 func TestCheck(t *testing.T) {
 	r := vp.New("C03", "exploration",
-		"publisher side: every root of a 10-CID alphabet (v0, v1 x 3 codecs x 3 hash functions) x 4 topics (none, ascii, unicode, 256 bytes) x key types: the real Publisher's /head answer is validated by the reference. Client side: for each of a corpus of valid encoded heads (key types x topics) served verbatim to the real Syncer.GetHead (libp2p-HTTP discovery and plain HTTP): every single-byte substitution, every truncation, and field-level alterations (CID replaced, topic added/removed/changed, key of another identity of the same and another type, signature of another head, key+signature swapped between two valid heads, re-signed by another identity, empty key, empty signature); every field-level alteration served cold (fresh Syncer) and after each of 5 histories of valid heads on a reused Syncer ([valid], [other root], [valid, other], [other, valid], [valid, valid]), followed by both valid heads again; every byte-level alteration right after the valid head on a reused Syncer (every 8th also cold); every alteration class also through Subscriber.SyncAdChain, cold and after a healthy sync with a head query (altered head derived from the head served before, and from the current one). Non-trivial: every altered head. Distinct = distinct (head, alteration).",
+		"publisher side: every root of a 10-CID alphabet (v0, v1 x 3 codecs x 3 hash functions) x 4 topics (none, ascii, unicode, 256 bytes) x key types: the real Publisher's /head answer is validated by the reference. Client side: for each of a corpus of valid encoded heads (key types x topics) served verbatim to the real Syncer.GetHead (libp2p-HTTP discovery and plain HTTP): every single-byte substitution, every truncation, and field-level alterations (CID replaced, topic added/removed/changed, key of another identity of the same and another type, signature of another head, key+signature swapped between two valid heads, re-signed by another identity, empty key, empty signature); every field-level alteration served cold (fresh Syncer) and after each of 5 histories of valid heads on a reused Syncer ([valid], [other root], [valid, other], [other, valid], [valid, valid]), each altered head served up to 3 times in a row, followed by both valid heads again; every byte-level alteration right after the valid head on a reused Syncer (every 8th also cold); every alteration class also through Subscriber.SyncAdChain, cold and after a healthy sync with a head query (altered head derived from the head served before, and from the current one). Non-trivial: every altered head. Distinct = distinct (head, alteration).",
 		"reference validator (generic DAG-JSON decode + libp2p crypto) is the oracle; an altered encoding is required to be rejected only when the reference rejects it (byte changes that alter no value are not alterations)",
 		"announce-triggered syncs do not query the head and are out of this property's reach",
 		"ECDSA signatures are randomised by the signer (libp2p/crypto), so the encoded ECDSA head, and with it the number of byte positions enumerated, varies by a few bytes between runs; every other fixture is deterministic",
@@ -374,7 +374,13 @@ func clientSide(t *testing.T, r *vp.Recorder, kt, topic string, ti int, disc, th
 			return
 		}
 		r.Eval(key, true)
-		serve(newSyncer(), key, class, "cold", body)
+		cold := newSyncer()
+		for rep := 1; rep <= 3; rep++ {
+			// the same altered head again and again: a rejection must not be
+			// remembered as anything but a rejection
+			serve(cold, key, class, fmt.Sprintf("cold, served %d time(s)", rep), body)
+		}
+		serve(cold, key, "valid", "cold, after the altered head was served 3 times", valid)
 		for _, h := range histories {
 			r.Eval(key+"|"+h.name, true)
 			sc := newSyncer()
@@ -382,6 +388,7 @@ func clientSide(t *testing.T, r *vp.Recorder, kt, topic string, ti int, disc, th
 				serve(sc, key, "valid", h.name+" (history)", hb)
 			}
 			serve(sc, key, class, h.name, body)
+			serve(sc, key, class, h.name+", served a second time", body)
 			serve(sc, key, "valid", h.name+", then valid again", valid)
 			serve(sc, key, "valid", h.name+", then the other valid head again", validOther)
 		}
@@ -398,6 +405,7 @@ func clientSide(t *testing.T, r *vp.Recorder, kt, topic string, ti int, disc, th
 		r.Eval(key, true)
 		serve(shared, key, "valid", "before "+class, valid)
 		serve(shared, key, class, "after-valid", body)
+		serve(shared, key, class, "after-valid, served a second time", body)
 		if nWarm%8 == 0 {
 			serve(newSyncer(), key, class, "cold", body)
 		}
@@ -518,6 +526,15 @@ func throughSubscriber(t *testing.T, r *vp.Recorder, kt string) {
 						}
 						if err == nil {
 							r.Violation("subscriber:sync-accepted-altered-head:"+name, key, fmt.Sprintf("%s: SyncAdChain returned %s with a head altered by %s", mode, got, name), nil)
+							return
+						}
+						// the identical response once more on the same subscriber
+						if pn, pm := vp.Guard(func() { got, err = sub.SyncAdChain(context.Background(), p.AddrInfo()); synctest.Wait() }); pn {
+							r.Violation("subscriber:panic", key, firstLine(pm), nil)
+							return
+						}
+						if err == nil {
+							r.Violation("subscriber:sync-accepted-altered-head-when-repeated:"+name, key, fmt.Sprintf("%s: the second SyncAdChain against the same altered head (%s) returned %s", mode, name, got), nil)
 							return
 						}
 						for _, rq := range p.Requests() {
